@@ -499,19 +499,28 @@ func clip(s string) string {
 }
 
 func (e *env) compareStruct(rc *rec, out reflect.Value, how string) {
+	e.compareStructSig("read-struct", rc, out, how)
+}
+
+// compareStructSig: sigp is the class of read (fresh destination, reused destination, ScanRows ...).
+func (e *env) compareStructSig(sigp string, rc *rec, out reflect.Value, how string) {
 	for _, l := range e.m.leaves {
 		x := rc.exp[l.ord]
 		if !x.set || x.any || (l.pk && rc.keyBad) {
 			continue
 		}
 		if got := canonGo(l, getLeaf(out, l)); got != x.canon {
-			e.problem("read-struct/"+l.kindName(), "%s: record %d field %s = %s, Create stored %s", how, rc.idx, l.name(), clip(got), clip(x.canon))
+			e.problem(sigp+"/"+l.kindName(), "%s: record %d field %s = %s, Create stored %s", how, rc.idx, l.name(), clip(got), clip(x.canon))
 		}
 		e.c.Inc("fields_compared_struct")
 	}
 }
 
 func (e *env) compareMap(rc *rec, mp map[string]interface{}, how string) {
+	e.compareMapSig("read-map", rc, mp, how)
+}
+
+func (e *env) compareMapSig(sigp string, rc *rec, mp map[string]interface{}, how string) {
 	for _, l := range e.m.leaves {
 		x := rc.exp[l.ord]
 		if !x.set || x.any || (l.pk && rc.keyBad) {
@@ -519,12 +528,12 @@ func (e *env) compareMap(rc *rec, mp map[string]interface{}, how string) {
 		}
 		v, ok := mp[l.col]
 		if !ok {
-			e.problem("read-map/column-missing", "%s: no key %q in the map (keys %v)", how, l.col, colNames(mp))
+			e.problem(sigp+"/column-missing", "%s: no key %q in the map (keys %v)", how, l.col, colNames(mp))
 			continue
 		}
 		got := canonAny(l, v)
 		if got != x.canon && !(x.rawNullOK && v == nil) {
-			e.problem("read-map/"+l.kindName(), "%s: record %d key %s = %s (%T), Create stored %s", how, rc.idx, l.col, clip(got), v, clip(x.canon))
+			e.problem(sigp+"/"+l.kindName(), "%s: record %d key %s = %s (%T), Create stored %s", how, rc.idx, l.col, clip(got), v, clip(x.canon))
 		}
 		e.c.Inc("fields_compared_map")
 	}
@@ -991,6 +1000,7 @@ func (e *env) finalFind() {
 		byPayload[rc.payload] = rc
 	}
 	e.rereadAll()
+	e.reuseRound(byPayload)
 	e.current = "Find"
 	payOf := func(v reflect.Value) string { return getLeaf(v, m.payload).String() }
 	check := func(how string, n int, at func(i int) (string, func(rc *rec))) {
